@@ -466,7 +466,7 @@ def _belt_worker(args):
                 if prop != pid or (c.get("odd_length") and clause not in ("capacity", "exact-travel", "min-travel")):
                     continue
                 tagc = "[%s/%s%s%s]" % (_belt_tag(c), "odd-length/" if c.get("odd_length") else "",
-                                        "grid/" if clause in ("acc-overlap", "acc-exit-shared") and _belt_on_grid(c) else "", clause)
+                                        "grid/" if clause in ("acc-overlap", "acc-exit-shared", "order", "crash") and c["acc"] and _belt_on_grid(c) else "", clause)
                 if tagc not in seen:
                     seen.add(tagc)
                     out["viol"].append(dict(**{"class": "belt"}, message=tagc + " " + msg, case=c))
@@ -571,7 +571,11 @@ def _f_worker(args):
                              tuple((n_["blocking"], n_["outsel"][0], n_["wcap"]) for n_ in c["nodes"])))
             if r["dis"]:
                 k, a, b = r["dis"]
-                kinds = {str(x).split()[0] for x in (a, b) if x} | set(r.get("kinds", ()))
+                flat = [y for x in (a, b) if x for y in (x if isinstance(x, (list, tuple)) else [x])]
+                kinds = {str(y).split()[0] for y in flat if y} | set(r.get("kinds", ()))
+                if any(str(y).startswith(("CRASH", "EXHAUSTED")) for y in flat):
+                    kinds |= {"CRASH", "EXHAUSTED"} & {str(y).split()[0] for y in flat}
+                    kinds.add("CRASH")      # one side ends in an unhandled exception / never finishes, the other does not
                 if pid == "C14":
                     # only movements over Fleet edges concern C14
                     kinds = {str(x).split()[0] for x in (a, b) if x and str(x).split()[0] in ("P", "T")
